@@ -4,6 +4,8 @@ import json, os
 ROOT = os.path.dirname(os.path.dirname(os.path.abspath(__file__)))
 TECH = "bounded symbolic execution of go/ssa + SMT (z3; cvc5 cross-check in thorough), native replay of counterexamples"
 claimed = {
+ "C11": dict(level="Context-bounded symbolic model checking of the real ReceivedMessageReader (loop, TryToReplaceLoop) with harness handlers that block on nested requests exactly as Conn.doInternal does: exactly-once processing, arrival order while handlers do not block, no stall (any state in which the pusher or a nested wait can never proceed is reported as deadlock) for every queue size and interleaving within the bounds; counterexample schedules and select choices are forced on the native build.",
+             note="Trusted: gosym encoder/scheduler model (concurrent witnesses replayed natively), z3. Claimed on the reader component; socket-to-queue hand-off and transports outside.", ref="DESIGN.md §4 C11"),
  "C16": dict(level="Context-bounded symbolic model checking of the real limiter (with the real x/sync semaphore, container/list and context interpreted from source): 3-4 request goroutines, limits from {1,2}^2, a controller thread deciding every order of finish/cancel events; asserts the total and per-endpoint limits at every admission, arrival-order admission per path, cancelled waiters returning their context error without disturbing slots, and an idle limiter (empty queues, full semaphore, immediate admission) at the end. Counterexample schedules are forced on the native build.",
              note="Trusted: gosym encoder and scheduler model (concurrent witnesses replayed natively under the recorded schedule), z3. Preemption bound 1; >5 requests outside.", ref="DESIGN.md §4 C16"),
  "C14": dict(level="Context-bounded symbolic model checking of pkg/sync.Map and pkg/cache.Cache: goroutines are interpreter threads, every interleaving at synchronisation-operation granularity within the preemption bound is explored as solver-visible decisions; histories are checked for linearizability against a sequential map specification written in the harness, plus the three clauses singled out by the property (store-if-absent has one winner on absent/expired keys, callbacks see the value in the map, the sweep never removes an unexpired entry). Counterexample schedules are forced on the native build.",
